@@ -4,6 +4,7 @@ import (
 	"fmt"
 	"strings"
 
+	"verif/harness/internal/routes"
 	"verif/harness/internal/synth"
 )
 
@@ -226,6 +227,17 @@ func renderCase(id int, cs CaseSpec) (files map[string]string, source string) {
 		files[source] = head(dir) + "// gomacro:QUERY SetEmail UPDATE Account SET Emial = $v$ WHERE Idd = $w$\ntype Account struct {\n\tId    int64\n\tEmail string\n}\n"
 	case "promotedmember":
 		files[source] = head(dir) + "type Shape interface{ isShape() }\n\ntype Base struct{ N int }\n\nfunc (Base) isShape() {}\n\ntype Circle struct {\n\tBase\n\tR float64\n}\n\ntype H struct {\n\tId int64\n\tS  Shape\n}\n"
+	// route files whose handlers use types the package level does not declare
+	case "handlerlocaltypes", "handleranonjson", "handlermapjson":
+		for k, v := range routes.Stubs() {
+			files[k] = v
+		}
+		body := map[string]string{
+			"handlerlocaltypes": "\ttype args struct {\n\t\tName string\n\t\tN    int\n\t}\n\ttype response struct {\n\t\tId   int64\n\t\tTags []string\n\t}\n\tvar in args\n\tif err := c.Bind(&in); err != nil {\n\t\treturn err\n\t}\n\tout := response{Id: int64(in.N)}\n\treturn c.JSON(200, out)\n",
+			"handleranonjson":   "\tout := struct {\n\t\tOk bool\n\t\tN  int\n\t}{true, 1}\n\treturn c.JSON(200, out)\n",
+			"handlermapjson":    "\tout := map[string][]Item{\"a\": nil}\n\treturn c.JSON(200, out)\n",
+		}[cs.Form]
+		files[source] = "package " + dir + "\n\nimport echo \"verif.test/org/zecho\"\n\ntype Item struct{ V int }\n\ntype ctl struct{}\n\nfunc (ctl) handle(c echo.Context) error {\n" + body + "}\n\nfunc routes(e *echo.Echo, ct ctl) {\n\te.POST(\"/handle\", ct.handle)\n}\n"
 	default:
 		panic("unknown spelling " + cs.Form)
 	}
